@@ -346,6 +346,20 @@ Section Observer.
                  (snd (fst (traj Tm t0 tadd St Rec updf dt0 v0 n))) (snd (traj Tm t0 tadd St Rec updf dt0 v0 n)) m)))).
       split; reflexivity.
   Qed.
+
+  (* the frames of the continuation: started from the state (and time step) reached after n updates and recorded with ANY save
+     interval k, the frame labelled s holds what the uninterrupted run holds after n + s updates *)
+  Theorem resume_frames (k n m : nat) f :
+    In f (run_frames Tm t0 tadd St Rec updf k
+            (D Tm t0 tadd St Rec updf dt0 v0 n) (V Tm t0 tadd St Rec updf dt0 v0 n) m) ->
+    f_vals _ _ _ f = V Tm t0 tadd St Rec updf dt0 v0 (n + f_step _ _ _ f) /\
+    f_dt _ _ _ f = D Tm t0 tadd St Rec updf dt0 v0 (n + f_step _ _ _ f).
+  Proof.
+    intros H.
+    destruct (frame_content Tm t0 tadd St Rec updf k _ _ m f H) as (A1 & _ & A3).
+    destruct (resume_concat n (f_step _ _ _ f)) as [RV RD].
+    rewrite A1, A3, RV, RD. split; reflexivity.
+  Qed.
 End Observer.
 
 (* ---------- C15: a fault (exception or KeyboardInterrupt) in the update at step p ---------- *)
